@@ -164,6 +164,50 @@ def oracle_pairs(case, obs):
         msg = (f"dry run: status {dry['rc']} renames {dry['events'][:4]}; real run: status {real['rc']} renames "
                f"{real['events'][:4]} (mode {case['mode']}, strategy {case['strategy']}; {dry['err'][-80:]!r} / {real['err'][-80:]!r})")
         return (msg, {"class": sig}) if sig else msg
+    return report_applied(case, dry, real)
+
+
+def report_applied(case, dry, real):
+    """the property's second sentence: the tree the real run leaves behind is the dry run's report applied, rename by
+    rename, to the initial tree (Lean: C05.final_tree_is_report_applied / applyReport).  Events name paths relative to
+    their input directory; a case in which one relative source exists under several input directories is skipped."""
+    if has_dir_link(case) or real["rc"] not in (0, 1):
+        # a run that dies inside a move (status 126: e.g. an entry designated twice whose second move finds the source
+        # gone *after* `mkdir -p` of the destination's parents) may leave an empty directory behind that no report mentions
+        return None
+    tree = {p: v[0] for p, v in real["before"].items()}
+    considered = [(d, rel) for d, rel, _ in dry["gens"]]
+    for src, dst, ov in dry["events"]:
+        cands = sorted({d for d, rel in considered if rel == src})
+        if len(cands) != 1:
+            return None
+        a = os.path.normpath(os.path.join(cands[0], src))
+        b = os.path.normpath(os.path.join(cands[0], dst))
+        if a not in tree:
+            return None          # a source that an earlier rename of the report moved (directory mode): not replayed here
+        if b in tree and tree[b] is None and tree[a] is not None:
+            return None          # a move *into* an existing directory (shutil.move): excluded by the side conditions
+        moved = {p: v for p, v in tree.items() if p == a or p.startswith(a + "/")}
+        for p in moved:
+            del tree[p]
+        if ov:
+            for p in [p for p in tree if p == b or p.startswith(b + "/")]:
+                del tree[p]
+        elif b in tree:
+            return f"the dry run reports {src!r} -> {dst!r} without the override marker although {b!r} exists at that point of its own report"
+        for p, v in moved.items():
+            tree[b + p[len(a):]] = v
+        q = os.path.dirname(b)
+        while q and q not in tree:
+            tree[q] = None           # path mode: missing parent directories are created
+            q = os.path.dirname(q)
+    actual = {p: v[0] for p, v in real["after"].items()}
+    if tree != actual:
+        only_exp = sorted(set(tree) - set(actual))[:4]
+        only_act = sorted(set(actual) - set(tree))[:4]
+        diff = sorted(p for p in set(tree) & set(actual) if tree[p] != actual[p])[:4]
+        return (f"the tree after the real run is not the dry run's report applied to the initial tree: only in the report's tree "
+                f"{only_exp}, only in the real tree {only_act}, different content {diff} (mode {case['mode']}, strategy {case['strategy']})")
     return None
 
 
